@@ -31,7 +31,7 @@
        * a sharedcomponent wrapper forwards only the first Start and the first Shutdown to the inner
          object.
    One action per call. *)
-EXTENDS PipelineGraph
+EXTENDS PipelineGraphMC     \* = PipelineGraph + the named universes / connector support table
 
 CONSTANTS ExtIds,      \* extension ids
           MaxFail      \* bound on |failStart| + |failShut|
@@ -67,13 +67,13 @@ DepsOK == /\ \A x \in exts : deps[x] \subseteq exts
 AddExt(x)    == /\ phase = "config" /\ x \notin exts /\ exts' = exts \cup {x}
                 /\ UNCHANGED <<cfg, deps, shared, failStart, failShut, ovars, ivars>>
 AddDep(x, y) == /\ phase = "config" /\ x \in exts /\ y \in exts /\ x # y /\ y \notin deps[x]
-                /\ deps' = [deps EXCEPT ![x] = @ \cup {y}] /\ DepsOK'
+                /\ deps' = [deps EXCEPT ![x] = @ \cup {y}]
                 /\ UNCHANGED <<cfg, exts, shared, failStart, failShut, ovars, ivars>>
+                /\ DepsOK'                                  \* no dependency cycle: extensions.New would fail
 Share(r)     == /\ phase = "config" /\ r \in Rcvs \ shared /\ \E xs \in UsedRcvs : xs[1] = r
                 /\ shared' = shared \cup {r}
                 /\ UNCHANGED <<cfg, exts, deps, failStart, failShut, ovars, ivars>>
 Build        == /\ phase = "config" /\ GNext
-                /\ shared \subseteq {xs[1] : xs \in UsedRcvs}'
                 /\ UNCHANGED <<exts, deps, shared, failStart, failShut, ovars, ivars>>
 
 -----------------------------------------------------------------------------
@@ -146,11 +146,13 @@ Zero(S, v) == [n \in S |-> v]
 IsTopo(s) == \A i, j \in DOMAIN s : s[j] \in deps[s[i]] => j < i
 Perms(S)  == {s \in [1..Cardinality(S) -> S] : \A i, j \in DOMAIN s : i # j => s[i] # s[j]}
 
+\* subsets with at most two elements (MaxFail <= 2)
+Small(S) == {{}} \cup {{x} : x \in S} \cup {{xy[1], xy[2]} : xy \in S \X S}
+
 Freeze == /\ phase = "config" /\ On # {} /\ Valid /\ DepsOK
           /\ \E o \in {s \in Perms(exts) : IsTopo(s)} : extOrder' = o
-          /\ \E fs \in SUBSET FKeys, fd \in SUBSET FKeys :
-                /\ Cardinality(fs) + Cardinality(fd) <= MaxFail
-                /\ failStart' = fs /\ failShut' = fd
+          /\ \E ff \in {gg \in Small(FKeys) \X Small(FKeys) : Cardinality(gg[1]) + Cardinality(gg[2]) <= MaxFail} :
+                failStart' = ff[1] /\ failShut' = ff[2]
           /\ starts' = Zero(Ents, 0) /\ startRes' = Zero(Ents, "none")
           /\ stops' = Zero(Ents, 0) /\ stopRes' = Zero(Ents, "none")
           /\ phase' = "extStart" /\ ei' = 1 /\ visS' = {} /\ visD' = {}
@@ -253,15 +255,15 @@ LSpec == LInit /\ [][LNext]_lvars
 Live == phase # "config"
 
 \* a Start call begins only when the statement allows it
-StartOrder == [][Live => \A n \in Comps : starts'[n] > starts[n] => MayStartNode(n)]_lvars
-ExtFirst   == [][Live => \A x \in exts : starts'[ExtN(x)] > starts[ExtN(x)] => MayStartExt(x)]_lvars
-StopOrder  == [][Live => \A n \in Comps : stops'[n] > stops[n] => MayStopNode(n)]_lvars
-ExtLast    == [][Live => \A x \in exts : stops'[ExtN(x)] > stops[ExtN(x)] => MayStopExt(x)]_lvars
+StartOrder == [][Live => \A n \in Comps : (starts'[n] > starts[n]) => MayStartNode(n)]_lvars
+ExtFirst   == [][Live => \A x \in exts : (starts'[ExtN(x)] > starts[ExtN(x)]) => MayStartExt(x)]_lvars
+StopOrder  == [][Live => \A n \in Comps : (stops'[n] > stops[n]) => MayStopNode(n)]_lvars
+ExtLast    == [][Live => \A x \in exts : (stops'[ExtN(x)] > stops[ExtN(x)]) => MayStopExt(x)]_lvars
 \* shared inner object: (the guard is evaluated in the post-state of the wrapper call because wrapper and inner call are one step here)
-SharedOnce == Live => \A r \in SharedUsed : starts[InnerN(r)] <= 1 /\ stops[InnerN(r)] <= 1
-AtMostOnce == Live => \A n \in Ents : starts[n] <= 1 /\ stops[n] <= 1
+SharedOnce == Live => (\A r \in SharedUsed : starts[InnerN(r)] <= 1 /\ stops[InnerN(r)] <= 1)
+AtMostOnce == Live => (\A n \in Ents : starts[n] <= 1 /\ stops[n] <= 1)
 \* nothing is shut down while start-up is still in progress, nothing is started after shutdown began
-Phases     == Live => (\E n \in Ents : stops[n] > 0) => phase \in {"nodeStop", "extStop", "done"}
+Phases     == (Live /\ \E n \in Ents : stops[n] > 0) => phase \in {"nodeStop", "extStop", "done"}
 Final      == phase = "done" => FinalOK
 \* every lifetime can be completed (no stuck state before "done")
 NoStuck    == (Live /\ phase # "done") => ENABLED LNext
